@@ -140,7 +140,12 @@ func WithVars(vars map[string]any) QueryOption {
 	}
 }
 
-func New(data Map, query string, options ...QueryOption) (*Query, error) {
+func New(data Map, query string, options ...QueryOption) (result *Query, err error) {
+	defer func() {
+		if r := recover(); r != nil {
+			result, err = nil, asError(r)
+		}
+	}()
 	q := &Query{
 		offsetDefinition:    -1,
 		limitDefinition:     -1,
@@ -186,6 +191,14 @@ func New(data Map, query string, options ...QueryOption) (*Query, error) {
 		return nil, err
 	}
 	return q, nil
+}
+
+// asError turns a recovered panic value into an error
+func asError(r any) error {
+	if err, ok := r.(error); ok {
+		return err
+	}
+	return fmt.Errorf("%v", r)
 }
 
 func Prepare(data Map, statement sqlparser.Statement, options *Options) (*Query, error) {
@@ -1778,7 +1791,7 @@ func ExecOrderBy(query *Query, current []any) ([]any, error) {
 func (query *Query) exec() (result any, err error) {
 	defer func() {
 		if r := recover(); r != nil {
-			err = r.(error)
+			result, err = nil, asError(r)
 		}
 	}()
 	if query.dual {
@@ -1883,6 +1896,11 @@ func (query *Query) execAndPostProcess() (result any, err error) {
 }
 
 func (query *Query) Exec() (result []any, err error) {
+	defer func() {
+		if r := recover(); r != nil {
+			result, err = nil, asError(r)
+		}
+	}()
 	rs, err := query.execAndPostProcess()
 	if err != nil {
 		return nil, err
